@@ -1021,6 +1021,19 @@ class Tr:
             q = sn + '::' + name
             if q in self.it.fns: return self.user_call(q, s, args, env)
             raise TranslateError(f'unknown method {q}')
+        if t in INT_TYPES:
+            w = INT_TYPES[t]
+            if name in ('wrapping_add', 'wrapping_sub', 'wrapping_mul', 'checked_add', 'checked_sub', 'saturating_sub', 'saturating_add', 'min', 'max'):
+                a, _ = self.ex(args[0], env, t)
+                if name == 'wrapping_add': return f'(({s} + {a}) % 2^{w})', t
+                if name == 'wrapping_sub': return f'(({s} + 2^{w} - {a}) % 2^{w})', t
+                if name == 'wrapping_mul': return f'(({s} * {a}) % 2^{w})', t
+                if name == 'checked_add': return f'(if {s} + {a} < 2^{w} then some ({s} + {a}) else none)', ('option', t)
+                if name == 'checked_sub': return f'(if {a} ≤ {s} then some ({s} - {a}) else none)', ('option', t)
+                if name == 'saturating_sub': return f'({s} - {a})', t
+                if name == 'saturating_add': return f'(min ({s} + {a}) (2^{w} - 1))', t
+                if name == 'min': return f'(min {s} {a})', t
+                if name == 'max': return f'(max {s} {a})', t
         if t == 'bytes':
             if name in ('iter', 'into_iter', 'collect', 'as_slice', 'to_vec', 'copied', 'cloned'): return s, 'bytes'
             if name == 'rev': return f'({s}.reverse)', 'bytes'
